@@ -42,10 +42,11 @@ demonstration fails) and the checks were run with `VERIF_REPO=<patched
 worktree>` (quick tier; C07-C needs the thorough tier).  Everything is kept under
 `seeded/<id>-<X>/` (`patch.diff`, the demonstration, `README.md`, `meta.json`
 with what was run and which violation keys fired).  **All %d are caught** by
-the listed checks (four by the check of the property they really violate rather
-than the one the agent was given: C01-C and C07-D are data races -> C18, C02-C
-needs `swap_modes` in a W32+NEUTRAL build -> C03/C12, C04-D is a mid-stream
-rekey divergence -> C06).  The ones first missed, and what was changed because
+the listed checks; about one in eight by the check of the property they
+really violate rather than the one the agent was given (e.g. C01-C and C07-D are
+data races -> C18, C02-C needs `swap_modes` in a W32+NEUTRAL build -> C03/C12,
+C04-D/C04-G/C12-H are mid-stream rekey divergences -> C06, C03-H -> C07, C14-G
+-> C16, C14-H -> C04); the table lists the checks that fired.  The ones first missed, and what was changed because
 of them, are listed below the table.
 
 ''' % nseed + t + '''
@@ -144,6 +145,48 @@ Checks strengthened because a seeded change was first missed:
   each followed by block operations) and a `tsan+NOBUILTIN` build
   (`-fno-builtin`, so `memcpy`/`memset` stay calls that the TSan runtime
   intercepts); now 1 500+ differing transcripts and TSan reports in every run.
+* **Round 4 (G, H)** - first missed and what was added:
+  * *C01-G, C01-H, C02-G, C02-H, C05-H, C12-G, C16-G (build-configuration arms)*: code that only exists under
+    `__OPTIMIZE_SIZE__`, `__SSSE3__`, `NDEBUG`, or in the 32-bit-word arm.  New variant modifiers `+Os`, `+Og`,
+    `+NATIVE` (`-march=native` on every file), `+NDEBUG`, `+UCHAR` (`-funsigned-char`); C01/C02 quick now include
+    `prod+Os+W32`, `prod+NATIVE+NDEBUG+UCHAR`, `clang+Os+NATIVE`; C12 quick has 19 configurations (thorough ~230);
+    C05 quick adds `prod+W32` and `prod+NEUTRAL`; C16 repeats its enumeration on `prod+W32`, `clang+Os+NEUTRAL`,
+    `prod+UNAL0+NOAVX2`.  C01-H also exposed that short C01 runs saw only zero keys: the structured block is now
+    walked in a scrambled (bijective) order.
+  * *C04-G, C05-H, C09-H, C06-H (word-level counter arithmetic)*: carries/borrows computed on 32/64-bit words go wrong
+    where a word crosses `0x7F..FF/0x80..00` or wraps while the bytes above are not all-ones.  New counter class
+    `vh_fill_msb_boundary` (low 1/2/4/8/16-byte word within 12 of its top-bit or wrap boundary, upper bytes random /
+    zero / ones) in every counter generator: CTR histories (random and structured), marathon objects, C09 placements,
+    Arduino IVs, tool counters.
+  * *C05-G, C10-G (rejected call disturbs the stream)*: C05/C04 model histories now contain invalid calls (the model
+    ignores them, the judged stream continues); C10 checks that a rejected key call issued in the middle of a
+    block/batch leaves the stream identical to a twin object's.
+  * *C07-G*: Mantis parallel histories now alias the tweak array with the input buffer and (out of place) with the
+    output buffer; expectation unchanged (tweak i is consumed before block i is written, as the block-by-block
+    definition implies).
+  * *C08-G*: large taint requests are now at least 64 KiB (and 512 KiB) for every block size, not 4200 blocks.
+  * *C09-G*: buffers whose addresses differ by an exact multiple of 4 GiB (`MAP_FIXED_NOREPLACE`), output pre-filled
+    with other data: a pointer difference truncated to 32 bits looks like "in place".
+  * *C10-H, C20-H, C20-G*: command lines with an option given twice (last one wins, or the tool may refuse) in C20 and
+    in the C10 tool sweep; input files of 1 MiB, 1 MiB+1 and several MiB for every tool.
+  * *C11-G*: `mantis_set_key` with mode values other than the two named ones: if it reports success the schedule must be
+    fully defined.
+  * *C13-G, C13-H*: new CPU model "SSE2-only (K8 class)"; while single-stepping, instructions of opcode maps 0F38/0F3A,
+    POPCNT and the SSE3 opcodes executed by library code are violations on that model; inits on models with OSXSAVE
+    clear are single-stepped and must not execute XGETBV.
+  * *C15-G*: allocator monitor mode that only guarantees 8-byte alignment (blocks at 8/24 mod 32) with fill-pattern
+    check of the slack between block end and guard page (`wrote-beyond-the-allocated-block`); 1 case in 4 (C15/C17)
+    and every second C16 sweep.
+  * *C16-H*: zero-length encrypt/decrypt and NULL counter calls in the failed-init battery.
+  * *C17-G, C17-H*: C17 is repeated in a process where `mlock`/`mlock2`/`mlockall` fail (seccomp filter,
+    `RLIMIT_MEMLOCK=0`), and with 220 objects of all kinds alive at once.
+  * *C18-G, C18-H*: fifth workload "persistent workers": the same 16 threads live through six phases between which the
+    main thread re-keys or re-creates the shared objects (per-thread caches keyed by address show up as stale-key
+    output); process-wide state (all signal dispositions, signal mask, x87/MXCSR control) is snapshotted before and
+    after every repetition and must be unchanged.
+  * *C19-G, C12-H*: tweak set to its current value again (C04 block and CTR histories, Arduino sequences).
+  Caught at once in round 4: C03-G, C03-H (by C07), C04-H, C06-G, C06-H, C07-H, C08-H, C11-H, C12-H (by C06), C14-G (by
+  C16), C14-H (by C04), C15-H, C19-H.
 
 ### 9.7 Behaviour-preserving changes (false-alarm trials)
 
@@ -162,6 +205,24 @@ reordered private context fields, a different aligned-allocation strategy, an
 algebraically different S-box, scratch writes into unused schedule entries,
 reordered handle initialisation / cleanup and a rewritten option parser raise
 no alarm.
+
+### 9.8 What the workloads execute (line coverage, diagnostic)
+
+`tools/coverage.py` (not a registered check) re-runs the checks with
+`VERIF_COV` set: every gcc build without sanitizer is compiled with gcov
+instrumentation at -O0, forked children dump their counters, and the line
+counts of all builds are merged per source file.  The report of the quick tier
+is kept in `coverage/quick-tier-lines.txt`: 4761 of 4837 instrumented lines of
+`src/`, `examples/` and `arduino/libraries/Skinny/` are executed (98.4 %%).  The
+rest: the short-TK1 loop of `skinny128/64_set_tk1` (dead: TK1 always gets a whole
+block), the defensive `if (!ctx) return 0` of the back-end functions
+(unreachable since a failed init clears the vtable), the SIMD stubs that are
+compiled only when the extension is absent (never selected), `secure_compare`
+of the Arduino port (not part of a property), and the tools' "cannot open
+output file" branch.  Getters and `CTR::setCounterSize` of the Arduino port were
+found unexecuted this way and added to the C19 sequences.  Line coverage says
+nothing about values, states or interleavings; it is used only to find code no
+workload reaches.
 '''
 open(os.path.join(ROOT, 'DESIGN.md'), 'w').write(d)
 print("seeds:", nseed, "equivalent:", len(eq))
